@@ -13,11 +13,15 @@ import (
 
 func init() { Scenarios["crosstalk"] = crosstalkScenario }
 
+// sharedReady: the shared Conn of the current crosstalk run has been dialled
+var sharedReady bool
+
 // crosstalkScenario: many goroutines share one Conn / one Transport and issue
 // requests whose correct answers are pairwise distinct; every call must get
 // its own answer or an error (C06). The cluster state is static during the
 // run, so the expected answer of every call is known in advance.
 func crosstalkScenario(s *Sim, params map[string]string) {
+	sharedReady = false
 	t := s.T
 	n := NewNet(s)
 	n.MinLatency = time.Duration(t.Range("cfg", 1, 10)) * 100 * time.Microsecond
@@ -97,6 +101,21 @@ func crosstalkScenario(s *Sim, params map[string]string) {
 		// the connection multiplexes by correlation id: answers may come in
 		// any order
 		cl.OutOfOrder = t.Intn("cfg", 3) == 0
+		if t.Intn("apiv", 4) == 0 {
+			// the connection's first (implicit) ApiVersions request is refused
+			// with UNSUPPORTED_VERSION, the list of versions still following
+			refused := false
+			cl.Mutate = func(r *Req, body rc.Msg) rc.Msg {
+				// (on the shared connection itself, not on the ones DialLeader
+				// uses to find the leader)
+				if r.Hdr.APIKey == 18 && r.Conn.Owner == "shared-conn" && !refused && sharedReady {
+					refused = true
+					body["error_code"] = int16(35)
+					s.Count("fault:apiversions-refused")
+				}
+				return body
+			}
+		}
 		if t.Intn("cfg", 2) == 0 {
 			// goroutines may lose the CPU between any two steps of an exchange
 			s.EnableStalls(Pick(t, "cfg", 20, 100), 3*time.Millisecond)
@@ -109,6 +128,7 @@ func crosstalkScenario(s *Sim, params map[string]string) {
 		d := &kafka.Dialer{DialFunc: n.Dialer("shared-conn"), ClientID: "xt", Timeout: 3 * time.Second}
 		var conn *kafka.Conn
 		ready := false
+		defer func() { _ = ready }()
 		s.Go("dial", func() {
 			ctx, cancel := context.WithTimeout(context.Background(), 10*time.Second)
 			defer cancel()
@@ -118,6 +138,7 @@ func crosstalkScenario(s *Sim, params map[string]string) {
 			}
 			conn = c
 			ready = true
+			sharedReady = true
 		})
 		for a := 0; a < nact; a++ {
 			a := a
